@@ -289,6 +289,7 @@ bool Directory::create(const String& dir)
     String basename = File::getBaseName(dir);
     if(basename == "." || basename == "..")
       return true;
+    return Directory::exists(dir); // e.g. it existed already; false if it could not be created
   }
   return true;
 }
